@@ -125,3 +125,22 @@ class AvoidedBy:
         return c.iff(result, c.ghost("OCCN", self, q) == 0)
 
     modifies = ()
+
+
+def _avoids_set(k):
+    @contract(f"Perm.avoids_set@{k}", params={"self": "Perm", "patts": f"Perm*{k}"}, returns="bool", props=P)
+    class _K:
+        # avoids_set(collection of k patterns): none of them occurs
+        def requires(c, self, patts):
+            return c.and_(c.is_perm(self), *[c.is_perm(p) for p in patts])
+
+        def ensures(c, self, patts, result):
+            return c.iff(result, c.and_(*[c.ghost("OCCN", p, self) == 0 for p in patts]))
+
+        modifies = ()
+
+    return _K
+
+
+for _k in (0, 1, 2, 3):
+    _avoids_set(_k)
